@@ -129,8 +129,23 @@ pub(crate) fn new_generation() -> String {
 
 /// Captures the logical commit timestamp immediately before the metadata
 /// pointer is published.
+///
+/// Rounded *up* to the millisecond the format stores: rounded down, the
+/// timestamp could predate the put that produced it, so a reader that took
+/// `before = now()`, wrote, and asked `if_modified_since(before)` was told the
+/// object had not been modified (and `if_unmodified_since(before)` passed).
 pub(crate) fn new_commit_timestamp_ms() -> u64 {
-    unix_ms()
+    std::time::SystemTime::now()
+        .duration_since(std::time::UNIX_EPOCH)
+        .map(|d| {
+            let ms = d.as_millis() as u64;
+            if d.subsec_nanos() % 1_000_000 == 0 {
+                ms
+            } else {
+                ms + 1
+            }
+        })
+        .unwrap_or(0)
 }
 
 /// Extracts the millisecond timestamp from a generation identifier minted by
